@@ -1,6 +1,8 @@
 """C13 — reported metadata equals the file's; unrepresentable values are rejected."""
-import random, os
+import random, os, subprocess
 import engine as E
+import build as B
+import zcklib as Z
 from props import hdrgen
 
 PROP = 'C13'
@@ -19,6 +21,7 @@ def gen_cases(tier, seed, ctx):
         p = os.path.join(ctx['work'], 'm%d.zck' % len(cases))
         open(p, 'wb').write(b)
         cases.append(E.Case('m%d' % len(cases), 'META ' + p, dict(kind=kind, file=p)))
+        ctx.setdefault('files', []).append((kind, p))
     files = hdrgen.sample_files(rnd)
     for name, z in files:
         b = z.build()
@@ -30,6 +33,62 @@ def gen_cases(tier, seed, ctx):
             add(kind, m)
     return cases
 
+HNAME = {0: 'SHA-1', 1: 'SHA-256', 2: 'SHA-512', 3: 'SHA-512/128'}
+
+def expected_report(b):
+    """what `zck_read_header -c` must print for a file the reference parser accepts (None: not accepted)"""
+    try: m = Z.parse(b)
+    except Exception: return None
+    L = ['zchunk detached header' if m['detached'] else 'zchunk file', '',
+         'Overall checksum type: ' + HNAME[m['hash_type']], 'Header size: %d' % (m['lead'] + m['header_len']),
+         'Header checksum: ' + m['header_digest'].hex()]
+    if m['flags'] > 0:
+        L.append('Flags:')
+        if m['flags'] & 2: L.append('    Has optional header elements')
+        if m['flags'] & 4: L.append('    Has uncompressed checksums')
+    L += ['Data size: %d' % m['data_len'], 'Data checksum: ' + m['data_digest'].hex(), 'Chunk count: %d' % m['count'],
+          'Chunk checksum type: ' + HNAME[m['chunk_hash_type']]]
+    d = m['chunks'][0]
+    L.append('No dictionary' if d['len'] == 0 else 'Dictionary: ' + d['digest'].hex())
+    L.append('')
+    rows = []
+    for c in m['chunks']:
+        rows.append((c['number'], c['digest'].hex(), c['udigest'].hex() if c['udigest'] is not None else '',
+                     m['lead'] + m['header_len'] + c['start'], c['comp_len'], c['len']))   # zck_get_chunk_start counts from the start of the file
+    return L, rows
+
+def post(recs, ctx):
+    """the zck_read_header tool on the files the reference parser accepts: every reported value, row by row"""
+    files = ctx.get('files')
+    if not files: return
+    tdir = B.build_tools(variant='plain')
+    opened = {r['op'].split(' ', 1)[1]: r['impl'].startswith('OK') for r in recs if r['op'].startswith('META ')}
+    for i, (kind, p) in enumerate(files):
+        b = open(p, 'rb').read()
+        exp = expected_report(b)
+        # "after a successful open": files the library itself opens (META above) and the reference parser accepts
+        if exp is None or not opened.get(p): continue
+        L, rows = exp
+        r = subprocess.run([os.path.join(tdir, 'zck_read_header'), '-c', p], capture_output=True, timeout=60)
+        out = r.stdout.decode('latin1').split('\n')
+        got_head = out[:len(L)]
+        body = [l for l in out[len(L):] if l.strip()]
+        got_rows = []
+        for l in body[1:]:
+            t = l.split()
+            try:
+                if len(t) == 5: got_rows.append((int(t[0]), t[1], '', int(t[2]), int(t[3]), int(t[4])))
+                elif len(t) == 6: got_rows.append((int(t[0]), t[1], t[2], int(t[3]), int(t[4]), int(t[5])))
+                else: got_rows.append(('unparsable', l))
+            except ValueError:
+                got_rows.append(('unparsable', l))
+        ok = r.returncode == 0 and got_head == L and got_rows == rows
+        detail = 'OK' if ok else 'FAIL rc=%d head_ok=%d rows %d/%d first-bad=%s' % (
+            r.returncode, got_head == L, sum(1 for a, c in zip(got_rows, rows) if a == c), len(rows),
+            next((repr(a)[:200] for a, c in zip(got_rows + [None] * len(rows), rows) if a != c), '-'))
+        recs.append(dict(id='tool%d' % i, op='TOOL zck_read_header -c ' + p, impl=detail, model='OK', prop=ok, agree=ok,
+                         sig='' if ok else 'C13/tool-report', meta=dict(kind='tool-' + kind, file=p)))
+
 def nontrivial(r):
     return True
 
@@ -38,7 +97,8 @@ def run(tier, seed, replay=None):
             "optional elements, detached headers) and on their re-sealed field mutants (count mismatch, index/header size +-k, every "
             "integer field at 0,1,127,128,2^31-1,2^31,2^32,2^63-1,2^63,2^64-1, unknown flags/types, zero-padded and 10/11-byte "
             "encodings, optional-element sizes at and past the end incl. wrapping ones, truncations) plus raw and re-sealed byte "
-            "substitutions/insertions/deletions; distinct by file content")
+            "substitutions/insertions/deletions; distinct by file content; plus the zck_read_header tool (-c) run on every one of those "
+            "files the reference parser accepts, its report compared line by line and chunk row by chunk row with the reference parse")
     def replay_setup(ctx, rp):
         pass
-    return E.standard_run(PROP, MODULES, gen_cases, tier, seed, replay, ASSUMPTIONS, rule, nontrivial=nontrivial)
+    return E.standard_run(PROP, MODULES, gen_cases, tier, seed, replay, ASSUMPTIONS, rule, nontrivial=nontrivial, post=post)
